@@ -1,6 +1,7 @@
 import MoPepGen.Model.Digest
 import MoPepGen.Model.Pairing
 import MoPepGen.Model.DigestPos
+import MoPepGen.Model.WingsLocal
 import MoPepGen.Generated.Expasy
 import MoPepGen.Generated.Weights
 import MoPepGen.Driver.Util
@@ -60,6 +61,26 @@ def handle (args : List String) : String :=
       else if wingsCover r w then joinWith "," (l.map fun (s, (a, b)) => s!"{s}:{a}-{b}")
       else "reject:wings"
     | _, _ => "bad-rule"
+  | ["glocal", rule, w0, w1, seq] =>
+    -- get_local_matched_range at EVERY position 0 .. |seq|+1, wings given on the line
+    match lookupRule rule with
+    | some r =>
+      joinWith ";" ((List.range (seq.length + 2)).map fun site =>
+        match getLocalMatchedRange r seq.toList site (w0.toNat!, w1.toNat!) with
+        | none => "fuel"
+        | some none => "reject:cannot-extract"
+        | some (some (a, b)) => s!"{a}-{b}")
+    | none => "bad-rule"
+  | ["ilocal", rule, exc, seq] =>
+    -- iter_enzymatic_cleave_sites_with_range_local, function-level model
+    match lookupRule rule, lookupExc exc, Generated.expasyWings.lookup rule with
+    | some r, some e, some w =>
+      match cleaveSitesWithRangeLocal r e w seq.toList with
+      | .error .wingsZero => "reject:wings-zero"
+      | .error (.cannotExtract x) => s!"reject:cannot-extract@{x}"
+      | .error .fuel => "fuel"
+      | .ok l => joinWith "," (l.map fun (s, (a, b)) => s!"{s}:{a}-{b}")
+    | _, _, _ => "bad-rule"
   | ["pcleave", rule, exc, misc, minMw, minLen, maxLen, nf, seq] =>
     -- positional digest (Props.C10.cleave_spec_positional / posDigest_spec)
     match mkCfg rule exc misc minMw minLen maxLen with
